@@ -220,9 +220,10 @@ def run_structs(args):
     for name, descs, queues, free in structs:
         def body(ctx, descs=descs, queues=queues, free=free):
             try:
-                b, spec, subs, notes = S.build_struct_message(ctx, descs, queues, free, nsub=env['nsub'],
-                                                              compressed=env['compressed'],
-                                                              variant_of_subset=env.get('vmap') or [0] * env['nsub'])
+                build = S.build_distinct_message if env.get('distinct') else S.build_struct_message
+                b, spec, subs, notes = build(ctx, descs, queues=queues, free=free, nsub=env['nsub'],
+                                             compressed=env['compressed'],
+                                             variant_of_subset=env.get('vmap') or [0] * env['nsub'])
             except codec.RefError:
                 return {'skip': 1}
             if notes and not env.get('ambiguous_ok'):
@@ -234,7 +235,8 @@ def run_structs(args):
             if 'skip' in res:
                 p.n['envelope_skipped'] += 1
                 return
-            p.outcome((name.split('|')[0], res['links'], env['compressed']))
+            p.outcome((name.split('|')[0], name.split('|')[1].split('.')[0] if name.startswith('nd') else None, res['links'],
+                       env['compressed']))
             r = res['r']
             if r and r[0] != 'skip':
                 parts = name.split('|')
@@ -409,6 +411,12 @@ def main(tier, seed):
                                ('bitmap-chain1-u2-diff', list(BM.chain1(L, 2)), dict(nsub=2, compressed=False, vmap=[0, 1])),
                                ('bitmap-chain1-u3-diff', list(BM.chain1(0, 2)), dict(nsub=3, compressed=False, vmap=[0, 1, 0])),
                                ('bitmap-in-replication', list(BM.wrapped(BM.chain1(0), 2, True)), dict(nsub=1, compressed=False)),
+                               # nested delayed replications: subsets with different counts, among them pairs whose expanded
+                               # descriptor lists coincide although the structures differ
+                               ('nested-delayed-u2', list(BM.nested_delayed(2, 2, 1 if tier == 'quick' else 2, 2)),
+                                dict(nsub=2, compressed=False, vmap=[0, 1], distinct=True)),
+                               ('nested-delayed-u3', list(BM.nested_delayed(2, 2, 1, 3, colliding_only=True)),
+                                dict(nsub=3, compressed=False, vmap=[0, 1, 2], distinct=True)),
                                ('data-not-present-spans', dnp_structs(), dict(nsub=1, compressed=False, ambiguous_ok=True)),
                                ('data-not-present-spans-c2', dnp_structs(), dict(nsub=2, compressed=True, ambiguous_ok=True))):
         p = merge_all(run_shards(run_structs, [(s, env) for s in split(structs, 64)]))
